@@ -883,6 +883,13 @@ Definition dispatch_leapfile (name : string) (a : list tok) : option (list tok *
       Some (match parse_leap_file s with
             | FileOk p => if exact_below (2 ^ 53) p then [TZ 1; TL (flat_map (fun e => [fst e; snd e]) p)] else nospec
             | FileErr k => [TErr k] end, nopanic)
+  (* a text the generator made from the IERS table by changing only the white space between and after the columns
+     (the expectation travels with the case): it must load as that table *)
+  | "leapfile_iers"%string, [TL s] =>
+      Some (match parse_leap_file s with
+            | FileOk p => if exact_below (2 ^ 53) p then [TZ 1; TL (flat_map (fun e => [fst e; snd e]) p)] else nospec
+            | FileErr k => [TErr k] end,
+            [TZ 1; TL (flat_map (fun e => [fst e; snd e]) IERS_FILE)])
   | "leapfile_lookup"%string, [TL s; TZ c; TZ n] =>
       Some (match parse_leap_file s with
             | FileOk p => if exact_below 4000000000 p
